@@ -148,6 +148,48 @@ def setting_default(repo, name):
     raise AnalysisError("Setting %r not found in gunicorn/config.py" % name)
 
 
+def setting_default_under(repo, name, environ):
+    """the default of Setting `name` evaluated with os.environ == `environ` (a dict): the class-level expression with
+    every `os.environ.get(K[, D])` / `os.environ[K]` / `K in os.environ` decided from the dict; NO when not determined"""
+    from ..absint import Explorer, UNKNOWN
+    for c in repo.classes():
+        if c.module.name != "gunicorn.config":
+            continue
+        nm = c.attrs.get("name")
+        if nm is not None and const(nm, NO) == name:
+            d = c.attrs.get("default")
+            if d is None:
+                return NO
+            host = [f for f in c.module.all_funcs if f.cls is None]
+            if not host:
+                return NO
+            ex = Explorer(host[0])
+            sub = {}
+            for x in ast.walk(d):
+                if isinstance(x, ast.Call) and isinstance(x.func, ast.Attribute) and x.func.attr == "get" and dotted(x.func.value) == "os.environ" and x.args and isinstance(const(x.args[0], NO), str):
+                    k = const(x.args[0])
+                    if k in environ:
+                        sub[id(x)] = environ[k]
+                    elif len(x.args) > 1:
+                        v = ex.ev(x.args[1], {})
+                        if v is UNKNOWN:
+                            return NO
+                        sub[id(x)] = v
+                    else:
+                        sub[id(x)] = None
+                elif isinstance(x, ast.Subscript) and dotted(x.value) == "os.environ" and isinstance(const(x.slice, NO), str) and const(x.slice) in environ:
+                    sub[id(x)] = environ[const(x.slice)]
+                elif isinstance(x, ast.Compare) and len(x.ops) == 1 and isinstance(x.ops[0], (ast.In, ast.NotIn)) and dotted(x.comparators[0]) == "os.environ" and isinstance(const(x.left, NO), str):
+                    sub[id(x)] = (const(x.left) in environ) == isinstance(x.ops[0], ast.In)
+            ex._subst = sub
+            try:
+                v = ex.ev(d, {})
+            finally:
+                ex._subst = {}
+            return NO if v is UNKNOWN else v
+    raise AnalysisError("Setting %r not found in gunicorn/config.py" % name)
+
+
 def cfg_attr(e):
     """'x' if expression is `<...>.cfg.x` or `cfg.x` / `conf.x`"""
     if isinstance(e, ast.Attribute):
